@@ -13,32 +13,33 @@
 From Coq Require Import List ZArith Bool Arith Permutation.
 From V Require Import Model.Slices Model.Flex.
 From V Require Import Proofs.SlicesBase Proofs.SlicesSel Proofs.SlicesInPlace Proofs.SlicesClamp Proofs.SlicesChunk
-  Proofs.SlicesFuncs Proofs.SlicesCase Proofs.Flex.
+  Proofs.SlicesFuncs Proofs.SlicesCase Proofs.Flex Proofs.SlicesRun.
+From V Require Lib.Enc Run.C14.
 Import ListNotations.
 
 (* ---------------------------------------------------------------- Diff / Intersect / Unique / UniqueByKey / Filter *)
 (* for every heap, every s1, s2 and every claimed dst layout: no panic, and the returned slice shows exactly the
    selected elements of s1 in s1's order (s1's ORIGINAL content, also when dst is s1[:0] and s1 is overwritten) *)
 Theorem c14_filter : forall p m dst s, wfs m s -> wfs m dst -> claimed dst s ->
-  exists m' r, go_filter p m dst s = Some (m', r) /\ slice_vals m' r = filter p (slice_vals m s).
+  exists m' r, go_filter p m dst s = Some (m', r) /\ slice_vals m' r = filter p (slice_vals m s) /\ length m <= length m'.
 Proof. exact go_filter_spec. Qed.
 Print Assumptions c14_filter.
 
 Theorem c14_diff : forall m dst s1 s2, wfs m s1 -> wfs m s2 -> wfs m dst -> claimed dst s1 ->
   exists m' r, go_diff m dst s1 s2 = Some (m', r) /\
-    slice_vals m' r = filter (fun v => negb (memz v (slice_vals m s2))) (slice_vals m s1).
+    slice_vals m' r = filter (fun v => negb (memz v (slice_vals m s2))) (slice_vals m s1) /\ length m <= length m'.
 Proof. exact go_diff_spec. Qed.
 Print Assumptions c14_diff.
 
 Theorem c14_intersect : forall m dst s1 s2, wfs m s1 -> wfs m s2 -> wfs m dst -> claimed dst s1 ->
   exists m' r, go_intersect m dst s1 s2 = Some (m', r) /\
-    slice_vals m' r = filter (fun v => memz v (slice_vals m s2)) (slice_vals m s1).
+    slice_vals m' r = filter (fun v => memz v (slice_vals m s2)) (slice_vals m s1) /\ length m <= length m'.
 Proof. exact go_intersect_spec. Qed.
 Print Assumptions c14_intersect.
 
 (* Unique is the instance key = identity *)
 Theorem c14_unique_by_key : forall key m dst s, wfs m s -> wfs m dst -> claimed dst s ->
-  exists m' r, go_unique_by_key key m dst s = Some (m', r) /\ slice_vals m' r = firsts key [] (slice_vals m s).
+  exists m' r, go_unique_by_key key m dst s = Some (m', r) /\ slice_vals m' r = firsts key [] (slice_vals m s) /\ length m <= length m'.
 Proof. exact go_unique_by_key_spec. Qed.
 Print Assumptions c14_unique_by_key.
 
@@ -215,3 +216,16 @@ Print Assumptions c14_flex_judge_accepts_model.
 Theorem c14_perm_test : forall a b, perm_b a b = true <-> Permutation a b.
 Proof. intros a b. split; [exact (perm_of_perm_b a b)|exact (perm_b_of_perm a b)]. Qed.
 Print Assumptions c14_perm_test.
+
+(* the same at the token level, for exactly the functions the OCaml driver runs: whatever list of integers decodes as a
+   case, sub 0 prints the encoded outcome of the model and sub 2 (the judge) answers [1] on that output *)
+Theorem c14_run_slices : forall args c, Run.C14.dec_case args = Some c ->
+  Run.C14.entry 0 args = Run.C14.enc_out (run_case c) /\
+  Run.C14.entry 2 (Lib.Enc.put_list args ++ Lib.Enc.put_list (Run.C14.entry 0 args)) = [1%Z].
+Proof. exact entry_slices. Qed.
+Print Assumptions c14_run_slices.
+Theorem c14_run_flex : forall r f0 ops, Run.C14.dec_flex r = Some (f0, ops) ->
+  Run.C14.entry 0 (Run.C14.F_FLEX :: r) = Run.C14.enc_fout (f_run f0 ops) /\
+  Run.C14.entry 2 (Lib.Enc.put_list (Run.C14.F_FLEX :: r) ++ Lib.Enc.put_list (Run.C14.entry 0 (Run.C14.F_FLEX :: r))) = [1%Z].
+Proof. exact entry_flex. Qed.
+Print Assumptions c14_run_flex.
